@@ -471,3 +471,175 @@ def check_offsets(f, blocks, xo):
             if o not in ioffs:
                 return "a %s cross-reference is reported at offset %d where no instruction starts" % (nm, o)
     return None
+
+
+# ---------------------------------------------------------------------------------------------------------- shipped files
+SHIPPED = ["tests/data/APK/classes.dex", "tests/data/APK/ExceptionHandling.dex", "tests/data/APK/FillArrays.dex",
+           "tests/data/APK/AnalysisTest.dex", "tests/data/APK/Test.dex", "tests/data/APK/StringTests.dex",
+           "tests/data/APK/TestActivity.apk", "tests/data/APK/com.teleca.jamendo_35.apk", "tests/data/APK/a2dp.Vol_137.apk",
+           "tests/data/APK/hello-world.apk", "tests/data/APK/Annotation_classes.dex"]
+_cache = {}
+
+
+def _load(rel):
+    import os
+    if rel in _cache:
+        return _cache[rel]
+    from androguard.core.dex import DEX
+    from androguard.core.analysis.analysis import Analysis
+    path = os.path.join(os.environ.get("VERIF_REPO", "/repo"), rel)
+    raw = open(path, "rb").read()
+    if rel.endswith(".apk"):
+        from androguard.core.apk import APK
+        raw = bytes(APK(raw, raw=True, skip_analysis=True).get_dex())
+    d = DEX(raw)
+    dx = Analysis(d)
+    ms = [m for m in d.get_encoded_methods() if m.get_code() is not None]
+    _cache.clear()
+    _cache[rel] = (d, dx, ms)
+    return _cache[rel]
+
+
+def gen_shipped(rng, tier, ctx):
+    """case = (file, start, step, count): the methods with code number start, start+step, ... of that file"""
+    cases = []
+    for rel in SHIPPED:
+        big = rel.endswith(("classes.dex", ".apk")) and "Annotation" not in rel
+        if tier == "thorough":
+            for s in range(0, 6000 if big else 40, 40):
+                cases.append((rel, s, 1, 40))
+        else:
+            cases.append((rel, rng.randrange(0, 7), rng.choice((53, 61, 67, 71)) if big or "Annotation" in rel else 1, 30))
+    return cases
+
+
+def describe_real(d, em):
+    """description of a parsed method in the vocabulary of the model (lengths, kinds, try table), read through the public API"""
+    from androguard.core.dex import PackedSwitch, SparseSwitch, FillArrayData
+    ins = []
+    for idx, i in em.get_instructions_idx():
+        op = i.get_op_value()
+        ln = i.get_length()
+        if isinstance(i, (PackedSwitch, SparseSwitch)):
+            k = ("spayload", list(i.get_targets()))
+        elif isinstance(i, FillArrayData):
+            k = ("fpayload",)
+        elif op == 0x27 or 0x0E <= op <= 0x11:
+            k = ("exit",)
+        elif 0x28 <= op <= 0x2A:
+            k = ("goto", i.get_ref_off())
+        elif 0x32 <= op <= 0x3D:
+            k = ("if", i.get_ref_off())
+        elif op in (0x2B, 0x2C):
+            k = ("switch", i.get_ref_off())
+        elif op == 0x26:
+            k = ("fill", i.get_ref_off())
+        else:
+            k = ("plain",)
+        ins.append((ln, k))
+    code = em.get_code()
+    tries, handlers = [], []
+    names = {}
+    if code.get_tries_size() > 0:
+        hl = code.get_handlers()
+        for h in hl.get_list():
+            typed = []
+            for x in h.get_handlers():
+                s = d.get_cm_type(x.get_type_idx())
+                tag = -1 if s == "Ljava/lang/Throwable;" else names.setdefault(s, len(names) + 1)
+                typed.append((tag, x.get_addr()))
+            ca = h.get_catch_all_addr() if h.get_size() <= 0 else None
+            handlers.append((h.get_off() - hl.get_off(), typed, ca))
+        for t in code.get_tries():
+            tries.append((t.get_start_addr(), t.get_insn_count(), t.get_handler_off()))
+    return ins, tries, handlers, names
+
+
+def impl_shipped(case):
+    rel, start, step, count = case
+    d, dx, ms = _load(rel)
+    out = []
+    for k in range(start, min(len(ms), start + step * count), step):
+        em = ms[k]
+        ins, tries, handlers, names = describe_real(d, em)
+        ma = dx.get_method(em)
+        ioff = {id(i): idx for idx, i in em.get_instructions_idx()}
+
+        def tag(t):
+            return -1 if t == "Ljava/lang/Throwable;" else names.get(t, -99)
+        blocks = []
+        for bb in ma.get_basic_blocks().get():
+            ea = bb.get_exception_analysis()
+            exc = None
+            if ea is not None:
+                exc = [ea.start, ea.end, [[tag(e[0]), e[1], e[2].get_start() if e[2] is not None else None] for e in ea.exceptions]]
+            spec = [[idx, (ioff.get(id(v)) if v is not None else None)] for idx, v in sorted(bb.special_ins.items())]
+            blocks.append([bb.get_start(), bb.get_end(), bb.get_nb_instructions(),
+                           [[c[0], c[1], c[2].get_start()] for c in bb.childs],
+                           [[c[0], c[1], c[2].get_start()] for c in bb.fathers], exc, spec])
+        out.append([[list(map(list, [(ln, list(k)) for ln, k in ins])), [list(t) for t in tries],
+                     [[o, [list(x) for x in ty], ca] for o, ty, ca in handlers]], blocks, "%s %s" % (em.get_class_name(), em.get_name())])
+    return out
+
+
+def facts_real(desc):
+    ins, tries, handlers = desc
+    lst, at = [], 0
+    for ln, k in ins:
+        kk = tuple(k[:1]) + tuple(k[1:])
+        lst.append((at, ln, (k[0],) + tuple(k[1:])))
+        at += ln
+    hs = {o: (ty, ca) for o, ty, ca in handlers}
+    tr = []
+    for s, c, ho in tries:
+        ty, ca = hs[ho]
+        tr.append((2 * s, 2 * s + 2 * c - 1, [(t, 2 * a) for t, a in ty] + ([(-1, 2 * ca)] if ca is not None else []), ho))
+    return {"ins": lst, "ioffs": [o for o, _, _ in lst], "by_off": {o: (ln, k) for o, ln, k in lst}, "total": at, "tries": tr}
+
+
+def coq_input_shipped(case, res):
+    if isinstance(res, Err):
+        return "[]"
+    ms = []
+    for desc, blocks, name in res:
+        ins, tries, handlers = desc
+        insl = coq_list(["{| ilen := %d; ikind := %s |}" % (ln, coq_kind(tuple(k))) for ln, k in ins])
+        tl = coq_list(["{| t_start := %d; t_count := %d; t_hoff := %d |}" % tuple(t) for t in tries])
+        hl = coq_list(["{| h_off := %d; h_typed := %s; h_catch_all := %s |}" % (
+            o, coq_list(["(%s, %s)" % (z(t), z(a)) for t, a in ty]), "None" if ca is None else "(Some %s)" % z(ca))
+            for o, ty, ca in handlers])
+        ms.append("(%s, (%s, %s))" % (insl, tl, hl))
+    return coq_list(ms)
+
+
+def per_method_shipped(check):
+    def oracle(case, res):
+        if isinstance(res, Err):
+            return "analysis of %s failed: %s %s" % (case[0], res.name, res.msg[:160])
+        for desc, blocks, name in res:
+            why = check(facts_real(desc), blocks, [[], [], [], []])
+            if why:
+                return "%s %s: %s" % (case[0], name, why)
+        return None
+    return oracle
+
+
+def stats_shipped(cases, results):
+    d = {"methods": 0, "instructions": 0, "blocks": 0, "methods_with_tries": 0, "blocks_with_exception_info": 0}
+    for c, r in zip(cases, results):
+        if isinstance(r, Err):
+            continue
+        for desc, blocks, name in r:
+            d["methods"] += 1
+            d["instructions"] += len(desc[0])
+            d["blocks"] += len(blocks)
+            d["methods_with_tries"] += bool(desc[1])
+            d["blocks_with_exception_info"] += sum(1 for b in blocks if b[5] is not None)
+    return d
+
+
+def STREAM_SHIPPED(oracle):
+    return {"name": "shipped-methods", "gen": gen_shipped, "impl": impl_shipped, "canon": lambda r: [b for _, b, _ in r],
+            "coq_header": COQ_HEADER, "coq_type": COQ_TYPE, "coq_input": lambda c: "[]", "coq_input_r": coq_input_shipped,
+            "coq_obs": "(fun l => VList (map obs_method l))", "model_vo": "Analysis/CfgModel.vo", "pinned": False,
+            "oracle": oracle, "stats": stats_shipped, "shard": 2, "case_timeout": 600}
